@@ -7,7 +7,7 @@
 From Coq Require Import List Arith Bool.
 Import ListNotations.
 From ZI Require Import Model.Ro Model.Adapter Model.Lookup Model.RegSys Model.CLookup Spec.EntryPoints
-     Proofs.EntryPoints Proofs.CLookup Gen.LookupPy Gen.LookupC Proofs.LookupGen.
+     Model.LookupPrims Proofs.EntryPoints Proofs.CLookup Gen.LookupPy Gen.LookupC Proofs.LookupGen.
 
 (* ---- relations between entry points: in EVERY cache state (valid or not), answers and the
         cache state left behind *)
@@ -301,6 +301,19 @@ Proof.
   - apply gen_c_subscriptions_eq.
 Qed.
 Print Assumptions C08_generated_c_eq_model.
+
+(* the Python-callable methods of the C classes: LookupBase.x parses its arguments and calls the core
+   function (queryAdapter = adapter_hook with the first two swapped); VerifyingBase.x does the same
+   AFTER _verify(self) - every entry point, as Model/RegSys.with_lookup assumes *)
+Theorem C08_generated_c_wrappers :
+  [gen_LB_lookup; gen_LB_lookup1; gen_LB_adapter_hook; gen_LB_queryAdapter; gen_LB_lookupAll; gen_LB_subscriptions] =
+  [mkWrap false CoreLookup [0; 1; 2; 3]; mkWrap false CoreLookup1 [0; 1; 2; 3]; mkWrap false CoreAdapterHook [0; 1; 2; 3];
+   mkWrap false CoreAdapterHook [1; 0; 2; 3]; mkWrap false CoreLookupAll [0; 1]; mkWrap false CoreSubscriptions [0; 1]] /\
+  [gen_VB_lookup; gen_VB_lookup1; gen_VB_adapter_hook; gen_VB_queryAdapter; gen_VB_lookupAll; gen_VB_subscriptions] =
+  [mkWrap true CoreLookup [0; 1; 2; 3]; mkWrap true CoreLookup1 [0; 1; 2; 3]; mkWrap true CoreAdapterHook [0; 1; 2; 3];
+   mkWrap true CoreAdapterHook [1; 0; 2; 3]; mkWrap true CoreLookupAll [0; 1]; mkWrap true CoreSubscriptions [0; 1]].
+Proof. split; reflexivity. Qed.
+Print Assumptions C08_generated_c_wrappers.
 
 (* hence every theorem above that is stated for Model/Lookup.v / Model/CLookup.v holds for the
    generated kernels; e.g. the generated C lookup1 agrees with the generated Python lookup *)
